@@ -149,7 +149,28 @@ def check_contain(case):
     return OK(nt, "contained" if truth else "not_contained")
 
 
-CHECKS = {"word": check_word, "tables": check_tables, "translation": check_translation, "contain": check_contain}
+def check_strict(case):
+    """Strict pin word u inside a (long) pin word w: occurrences may overlap each other and may
+    start at numerals or at direction letters (Lemma 3.12).  Oracle: quadrant of the pin at the
+    start index, computed by the order-theoretic decoder, plus literal agreement of the letters."""
+    w, u = case["w"], case["u"]
+    want = pin.strict_occurrences(w, u)
+    got = list(PW.pinword_occurrences_sp(w, u))
+    if got != want:
+        return BAD("pinword_occurrences_sp", {"w": w, "u": u, "got": got, "want": want})
+    if PW.pinword_contains_sp(w, u) != bool(want):
+        return BAD("pinword_contains_sp", {"w": w, "u": u, "want": bool(want)})
+    # a strict pin word is its own single factor: the general test must agree
+    gen_got = sorted(tuple(o) if isinstance(o, (tuple, list)) else (o,) for o in PW.pinword_occurrences(w, u))
+    if gen_got != [(i,) for i in want]:
+        return BAD("pinword_occurrences_strict_u", {"w": w, "u": u, "got": gen_got, "want": want})
+    if PW.pinword_contains(w, u) != bool(want):
+        return BAD("pinword_contains_strict_u", {"w": w, "u": u, "want": bool(want)})
+    overlap = any(b - a < len(u) for a, b in zip(want, want[1:]))
+    return OK(len(want) >= 1 and len(u) >= 3, "overlapping_occurrences" if overlap else "occurs" if want else "no_occurrence", key=f"{w}|{u}")
+
+
+CHECKS = {"word": check_word, "tables": check_tables, "translation": check_translation, "contain": check_contain, "strict": check_strict}
 
 
 # ------------------------------------------------------------------ generators
@@ -215,7 +236,34 @@ def contain_cases(draw):
     return {"w": w, "sigma": sigma, "near_miss": near}
 
 
+@st.composite
+def strict_cases(draw):
+    """w: numeral-led pieces whose direction tails are periodic (ULUL.., RDRD..) so that a tail
+    overlaps itself; u: read off w at a random index (occurrence guaranteed), or with another
+    numeral (near miss), or free"""
+    w = ""
+    for _ in range(draw(st.integers(1, 3))):
+        a, b = draw(st.sampled_from(["UL", "UR", "DL", "DR", "LU", "LD", "RU", "RD"]))
+        tail = (a + b) * 4
+        w += draw(st.sampled_from(pin.QUADS)) + tail[: draw(st.integers(0, 7))]
+    if draw(st.integers(0, 3)) == 0:
+        w = draw(pin_words(4, 12))
+    k = draw(st.integers(1, 6))
+    starts = [i for i in range(len(w) - k + 1) if all(c in pin.DIRS for c in w[i + 1 : i + k])]
+    if starts and draw(st.integers(0, 5)) != 0:
+        i = draw(st.sampled_from(starts))
+        num = pin.quadrant(w, i) if draw(st.integers(0, 3)) else draw(st.sampled_from(pin.QUADS))
+        u = num + w[i + 1 : i + k]
+    else:
+        u = draw(pin_words(1, 5))
+        u = u[0] + "".join(c for c in u[1:] if c in pin.DIRS)
+        if not pin.in_language(u):
+            u = u[:1]
+    return {"w": w, "u": u}
+
+
 def shard_generated(acc, shard, nshards, n_word, n_contain):
+    engine.hyp_run(acc, "strict", check_strict, strict_cases(), n_contain * 4, shard)
     engine.hyp_run(acc, "word", check_word, pin_words(5, 12), n_word, shard)
     engine.hyp_run(acc, "contain", check_contain, contain_cases(), n_contain, shard)
 
